@@ -3,6 +3,23 @@
 #include "contracts/hash_table.h"
 #include "source/hash_table.c"
 
+#ifdef HT_NO_ALLOC
+/* Units for steps that must not allocate or release (everything except resize and clean-up): the allocator entry points
+ * are obligations ("never reached") instead of the real source/allocator.c; the assume(0) only prunes the path after
+ * the failed obligation. */
+void *aws_mem_calloc(struct aws_allocator *a, size_t n, size_t s) {
+    (void)a; (void)n; (void)s;
+    __CPROVER_assert(0, "no allocation in a step that does not resize");
+    __CPROVER_assume(0);
+    return NULL;
+}
+void aws_mem_release(struct aws_allocator *a, void *p) {
+    (void)a; (void)p;
+    __CPROVER_assert(0, "no release in a step that does not resize or clean up");
+    __CPROVER_assume(0);
+}
+#endif
+
 #define CHECK(c, msg) __CPROVER_assert((c), msg)
 #define NO_DESTRUCTOR_CALLS() CHECK(g_dk_calls == 0 && g_dv_calls == 0, "no destructor is called")
 
@@ -103,12 +120,15 @@ void h_create(void) {
         CHECK(i1 != HT_NONE && s1->slots[i1].element.key == key && s1->slots[i1].element.value == NULL, "create: new entry holds the key pointer and a NULL value");
         CHECK(!want_elem || (i1 != HT_NONE && el == &s1->slots[i1].element), "create: returns the new element");
         CHECK(!want_created || created == 1, "create: was_created == 1 for a new key");
+#if !defined(HT_GROW) || HT_GROW == 0
         if (s1 == st) {
             if (i1 != HT_NONE && sp_disp(s1, HT_NS, i1) > 0) CANARY("create: new entry displaced");
             else CANARY("create: new entry at home");
-        } else {
-            CANARY("create: resized");
         }
+#endif
+#if !defined(HT_GROW) || HT_GROW == 1
+        if (s1 != st) CANARY("create: resized");
+#endif
     }
 }
 
@@ -124,6 +144,11 @@ void h_put(void) {
     struct ht_snap snap;
     ht_snapshot(st, HT_NS, &snap);
     size_t idx = sp_find(st, HT_NS, key);
+#if defined(HT_PUT_CASE) && HT_PUT_CASE == 0 /* overwrite only */
+    __CPROVER_assume(idx != HT_NONE);
+#elif defined(HT_PUT_CASE) && HT_PUT_CASE == 1 /* insert only */
+    __CPROVER_assume(idx == HT_NONE);
+#endif
     struct ht_view k0 = sp_view(st, HT_NS, key);
     struct ht_view g0 = sp_view(st, HT_NS, gk);
     bool want_created = nondet_bool();
@@ -135,6 +160,7 @@ void h_put(void) {
     CHECK(rv == AWS_OP_SUCCESS, "put: succeeds");
     struct ht_view k1 = VIEW_EITHER(s1, key);
     CHECK(k1.present && k1.key == key && k1.value == value, "put: the key now maps to the new value, stored under the new key pointer");
+#if !defined(HT_PUT_CASE) || HT_PUT_CASE == 0
     if (idx != HT_NONE) {
         CHECK(s1 == st && ht_inv(st, HT_NS) && ht_hdr_same(st, &snap) && st->entry_count == snap.hdr.entry_count, "put: overwrite keeps shape and count");
         CHECK(!want_created || created == 0, "put: was_created == 0 on overwrite");
@@ -147,13 +173,21 @@ void h_put(void) {
         CHECK(g_dv_calls == (dv ? 1 : 0) && (!dv || g_dv_last == k0.value), "put: overwritten value destroyed exactly once");
         if (dk) CANARY("put: overwrite, old key destroyed");
         else CANARY("put: overwrite, key kept");
-    } else {
+    }
+#endif
+#if !defined(HT_PUT_CASE) || HT_PUT_CASE == 1
+    if (idx == HT_NONE) {
         check_inserted(&map, st, &snap, key, gk, g0);
         CHECK(!want_created || created == 1, "put: was_created == 1 for a new key");
         NO_DESTRUCTOR_CALLS();
+#if !defined(HT_GROW) || HT_GROW == 0
         if (s1 == st) CANARY("put: inserted");
-        else CANARY("put: inserted with resize");
+#endif
+#if !defined(HT_GROW) || HT_GROW == 1
+        if (s1 != st) CANARY("put: inserted with resize");
+#endif
     }
+#endif
 }
 
 /* ---------------------------------------------------------------- remove */
@@ -197,4 +231,249 @@ void h_remove(void) {
             else CANARY("remove: removed");
         }
     }
+}
+
+/* ---------------------------------------------------------------- resize (s_expand_table), HT_NS -> 2*HT_NS */
+#ifndef HT_NO_ALLOC
+void h_expand(void) {
+    ht_model_init();
+    struct hash_table_state *st = ht_any_state(HT_NS);
+    struct aws_hash_table map = {st};
+    const void *gk = ht_any_key();
+    struct ht_snap snap;
+    ht_snapshot(st, HT_NS, &snap);
+    struct ht_view g0 = sp_view(st, HT_NS, gk);
+
+    int rv = s_expand_table(&map);
+
+    struct hash_table_state *s1 = map.p_impl;
+    CHECK(rv == AWS_OP_SUCCESS, "expand: succeeds");
+    CHECK(s1 != st && g_release_calls == 1 && g_release_last == st, "expand: new slot array, old one released exactly once");
+    CHECK(ht_inv(s1, 2 * HT_NS), "expand: representation invariant holds for the doubled table");
+    CHECK(s1->entry_count == snap.hdr.entry_count, "expand: count kept");
+    CHECK(s1->entry_count + 1 <= s1->max_load, "expand: the doubled table takes one more entry without resizing again");
+    CHECK(s1->destroy_key_fn == snap.hdr.destroy_key_fn && s1->destroy_value_fn == snap.hdr.destroy_value_fn, "expand: destructor configuration kept");
+    CHECK(sp_view_eq(sp_view(s1, 2 * HT_NS, gk), g0), "expand: every key keeps its presence, key pointer and value");
+    NO_DESTRUCTOR_CALLS();
+    if (snap.hdr.entry_count == HT_NS - 1) CANARY("expand: full table rehashed");
+    else CANARY("expand: rehashed");
+}
+#endif
+
+/* ---------------------------------------------------------------- remove_element */
+void h_remove_element(void) {
+    ht_model_init();
+    struct hash_table_state *st = ht_any_state(HT_NS);
+    struct aws_hash_table map = {st};
+    size_t i = nondet_size_t();
+    __CPROVER_assume(i < HT_NS && st->slots[i].hash_code != 0);
+    const void *key = st->slots[i].element.key;
+    const void *gk = ht_any_key();
+    struct ht_snap snap;
+    ht_snapshot(st, HT_NS, &snap);
+    struct ht_view g0 = sp_view(st, HT_NS, gk);
+
+    int rv = aws_hash_table_remove_element(&map, &st->slots[i].element);
+
+    CHECK(rv == AWS_OP_SUCCESS, "remove_element: succeeds");
+    CHECK(map.p_impl == st && ht_hdr_same(st, &snap), "remove_element: same slot array, header kept");
+    CHECK(ht_inv(st, HT_NS), "remove_element: representation invariant holds afterwards");
+    CHECK(st->entry_count == snap.hdr.entry_count - 1, "remove_element: count decremented");
+    CHECK(sp_find(st, HT_NS, key) == HT_NONE, "remove_element: the element's key is no longer present");
+    if (!sp_keq(gk, key)) CHECK(sp_view_eq(sp_view(st, HT_NS, gk), g0), "remove_element: every other key keeps its presence, key pointer and value");
+    NO_DESTRUCTOR_CALLS();
+    if (i == HT_NS - 1 && st->slots[i].hash_code != 0) CANARY("remove_element: last slot refilled by backward shift across the wrap-around");
+    else CANARY("remove_element: removed");
+}
+
+/* ---------------------------------------------------------------- clear / clean_up */
+static void clear_pre(struct hash_table_state *st, const void *gk, struct ht_view *g0, void **wv, size_t *n_wv) {
+    *g0 = sp_view(st, HT_NS, gk);
+    if (g0->present) g_dk_watch = g0->key; /* watch the ghost key's stored pointer */
+    *wv = ht_any_value();                  /* and an arbitrary value pointer (may be stored in several entries) */
+    g_dv_watch = *wv;
+    *n_wv = sp_count_value(st, HT_NS, *wv);
+}
+static void clear_post_destructors(const struct ht_snap *snap, struct ht_view g0, size_t n_wv) {
+    bool dk = snap->hdr.destroy_key_fn != NULL, dv = snap->hdr.destroy_value_fn != NULL;
+    CHECK(g_dk_calls == (dk ? snap->hdr.entry_count : 0), "clear: key destructor runs once per stored entry (never without one)");
+    CHECK(g_dk_hits == (dk && g0.present ? 1 : 0), "clear: every stored key pointer destroyed exactly once");
+    CHECK(g_dv_calls == (dv ? snap->hdr.entry_count : 0), "clear: value destructor runs once per stored entry (never without one)");
+    CHECK(g_dv_hits == (dv ? n_wv : 0), "clear: every value pointer destroyed once per entry holding it");
+}
+void h_clear(void) {
+    ht_model_init();
+    struct hash_table_state *st = ht_any_state(HT_NS);
+    struct aws_hash_table map = {st};
+    const void *gk = ht_any_key();
+    struct ht_snap snap;
+    ht_snapshot(st, HT_NS, &snap);
+    struct ht_view g0;
+    void *wv;
+    size_t n_wv;
+    clear_pre(st, gk, &g0, &wv, &n_wv);
+
+    aws_hash_table_clear(&map);
+
+    CHECK(map.p_impl == st && ht_hdr_same(st, &snap), "clear: same slot array, header kept");
+    CHECK(ht_inv(st, HT_NS) && st->entry_count == 0, "clear: empty table satisfying the invariant");
+    CHECK(sp_find(st, HT_NS, gk) == HT_NONE, "clear: no key present");
+    clear_post_destructors(&snap, g0, n_wv);
+    if (snap.hdr.entry_count == HT_NS - 1 && snap.hdr.destroy_key_fn && snap.hdr.destroy_value_fn) CANARY("clear: full table, both destructors");
+    else if (snap.hdr.entry_count > 0 && !snap.hdr.destroy_key_fn && !snap.hdr.destroy_value_fn) CANARY("clear: no destructors");
+    else CANARY("clear: other");
+    if (n_wv > 1) CANARY("clear: one value pointer held by several entries");
+}
+#ifndef HT_NO_ALLOC
+void h_clean_up(void) {
+    ht_model_init();
+    struct hash_table_state *st = ht_any_state(HT_NS);
+    struct aws_hash_table map = {st};
+    const void *gk = ht_any_key();
+    struct ht_snap snap;
+    ht_snapshot(st, HT_NS, &snap);
+    struct ht_view g0;
+    void *wv;
+    size_t n_wv;
+    clear_pre(st, gk, &g0, &wv, &n_wv);
+
+    aws_hash_table_clean_up(&map);
+
+    CHECK(map.p_impl == NULL, "clean_up: p_impl reset");
+    CHECK(g_release_calls == 1 && g_release_last == st, "clean_up: slot array released exactly once");
+    clear_post_destructors(&snap, g0, n_wv);
+    CANARY("clean_up: cleaned");
+
+    aws_hash_table_clean_up(&map); /* idempotent */
+    CHECK(map.p_impl == NULL && g_release_calls == 1, "clean_up: second call does nothing");
+    clear_post_destructors(&snap, g0, n_wv);
+    CANARY("clean_up: second call returned");
+}
+#endif
+
+/* ---------------------------------------------------------------- iteration: begin / done / next / delete */
+void h_iter_begin(void) {
+    ht_model_init();
+    struct hash_table_state *st = ht_any_state(HT_NS);
+    struct aws_hash_table map = {st};
+    struct ht_snap snap;
+    ht_snapshot(st, HT_NS, &snap);
+    size_t p = nondet_size_t(); /* an arbitrary stored entry */
+    __CPROVER_assume(p < HT_NS);
+
+    struct aws_hash_iter it = aws_hash_iter_begin(&map);
+
+    CHECK(map.p_impl == st && ht_same(st, HT_NS, &snap), "iter_begin: table unchanged");
+    CHECK(it_inv(&it, &map, HT_NS), "iter_begin: iterator invariant established");
+    CHECK(it.limit == HT_NS, "iter_begin: window is the whole slot array");
+    CHECK(it.status != AWS_HASH_ITER_STATUS_DELETE_CALLED, "iter_begin: status is READY or DONE");
+    if (st->slots[p].hash_code) CHECK(it_class_of(&it, p) != IT_VISITED, "iter_begin: no stored entry counts as visited");
+    CHECK((it.status == AWS_HASH_ITER_STATUS_DONE) == (st->entry_count == 0), "iter_begin: DONE iff the table is empty");
+    CHECK(aws_hash_iter_done(&it) == (it.status == AWS_HASH_ITER_STATUS_DONE), "iter_done: true iff status is DONE");
+    NO_DESTRUCTOR_CALLS();
+    if (it.status == AWS_HASH_ITER_STATUS_DONE) CANARY("iter_begin: empty table");
+    else if (it.slot > 0) CANARY("iter_begin: first entry after empty slots");
+    else CANARY("iter_begin: first entry in slot 0");
+}
+
+/* an arbitrary iterator over `map` satisfying it_inv */
+static struct aws_hash_iter any_iter(const struct aws_hash_table *map) {
+    struct aws_hash_iter it;
+    it.map = map;
+    it.slot = nondet_size_t();
+    it.limit = nondet_size_t();
+    int s = nondet_int();
+    __CPROVER_assume(s == AWS_HASH_ITER_STATUS_DONE || s == AWS_HASH_ITER_STATUS_DELETE_CALLED || s == AWS_HASH_ITER_STATUS_READY_FOR_USE);
+    it.status = (enum aws_hash_iter_status)s;
+    __CPROVER_assume(it.limit <= HT_NS && (it.slot < HT_NS || it.slot == SIZE_MAX || it.slot == it.limit));
+    it.element.key = NULL;
+    it.element.value = NULL;
+    if (it.status == AWS_HASH_ITER_STATUS_READY_FOR_USE && it.slot < HT_NS) it.element = map->p_impl->slots[it.slot].element;
+    it.unused_0 = 0;
+    it.unused_1 = NULL;
+    it.unused_2 = NULL;
+    __CPROVER_assume(it_inv(&it, map, HT_NS));
+    return it;
+}
+
+void h_iter_next(void) {
+    ht_model_init();
+    struct hash_table_state *st = ht_any_state(HT_NS);
+    struct aws_hash_table map = {st};
+    struct aws_hash_iter it = any_iter(&map);
+    struct ht_snap snap;
+    ht_snapshot(st, HT_NS, &snap);
+    size_t p = nondet_size_t(); /* an arbitrary stored entry */
+    __CPROVER_assume(p < HT_NS && st->slots[p].hash_code != 0);
+    enum it_class c0 = it_class_of(&it, p);
+    enum aws_hash_iter_status s0 = it.status;
+    size_t limit0 = it.limit;
+
+    aws_hash_iter_next(&it);
+
+    CHECK(map.p_impl == st && ht_same(st, HT_NS, &snap), "iter_next: table unchanged");
+    CHECK(it_inv(&it, &map, HT_NS), "iter_next: iterator invariant kept");
+    CHECK(it.limit == limit0, "iter_next: window limit kept");
+    CHECK(it.status != AWS_HASH_ITER_STATUS_DELETE_CALLED, "iter_next: status is READY or DONE");
+    enum it_class c1 = it_class_of(&it, p);
+    CHECK(c0 != IT_VISITED || c1 == IT_VISITED, "iter_next: a visited entry is never handed out again");
+    CHECK(c0 != IT_CURRENT || c1 == IT_VISITED, "iter_next: the current entry becomes visited");
+    CHECK(c0 != IT_PENDING || c1 != IT_VISITED, "iter_next: a pending entry is not skipped");
+    CHECK(it.status != AWS_HASH_ITER_STATUS_DONE || c1 == IT_VISITED, "iter_next: DONE only when nothing is pending");
+    CHECK(aws_hash_iter_done(&it) == (it.status == AWS_HASH_ITER_STATUS_DONE), "iter_done: true iff status is DONE");
+    NO_DESTRUCTOR_CALLS();
+    if (s0 == AWS_HASH_ITER_STATUS_DELETE_CALLED && it.status == AWS_HASH_ITER_STATUS_READY_FOR_USE) {
+        if (it.slot == 0) CANARY("iter_next: after deleting slot 0 the entry shifted into slot 0 is handed out");
+        else CANARY("iter_next: after delete, next entry handed out");
+    } else if (s0 == AWS_HASH_ITER_STATUS_READY_FOR_USE && it.status == AWS_HASH_ITER_STATUS_READY_FOR_USE) CANARY("iter_next: advanced");
+    else if (s0 == AWS_HASH_ITER_STATUS_DONE) CANARY("iter_next: on a DONE iterator");
+    else if (limit0 < HT_NS) CANARY("iter_next: reached a shrunk limit");
+    else CANARY("iter_next: reached the end");
+}
+
+void h_iter_delete(void) {
+    ht_model_init();
+    struct hash_table_state *st = ht_any_state(HT_NS);
+    struct aws_hash_table map = {st};
+    struct aws_hash_iter it = any_iter(&map);
+    __CPROVER_assume(it.status == AWS_HASH_ITER_STATUS_READY_FOR_USE);
+    bool destroy = nondet_bool();
+    struct ht_snap snap;
+    ht_snapshot(st, HT_NS, &snap);
+    struct aws_hash_element cur = it.element;
+    size_t slot0 = it.slot, limit0 = it.limit;
+    size_t p = nondet_size_t(); /* an arbitrary OTHER stored entry */
+    __CPROVER_assume(p < HT_NS && p != it.slot && st->slots[p].hash_code != 0);
+    struct aws_hash_element ge = st->slots[p].element;
+    enum it_class c0 = it_class_of(&it, p);
+
+    aws_hash_iter_delete(&it, destroy);
+
+    CHECK(map.p_impl == st && ht_hdr_same(st, &snap), "iter_delete: same slot array, header kept");
+    CHECK(ht_inv(st, HT_NS), "iter_delete: representation invariant holds afterwards");
+    CHECK(st->entry_count == snap.hdr.entry_count - 1, "iter_delete: count decremented");
+    CHECK(sp_find(st, HT_NS, cur.key) == HT_NONE, "iter_delete: the current entry is gone");
+    CHECK(it.status == AWS_HASH_ITER_STATUS_DELETE_CALLED && it_inv(&it, &map, HT_NS), "iter_delete: iterator invariant kept, status DELETE_CALLED");
+    size_t p1 = sp_find(st, HT_NS, ge.key);
+    CHECK(p1 != HT_NONE && st->slots[p1].element.key == ge.key && st->slots[p1].element.value == ge.value, "iter_delete: every other entry kept");
+    if (p1 != HT_NONE) {
+        enum it_class c1 = it_class_of(&it, p1);
+        CHECK(c0 != IT_VISITED || c1 == IT_VISITED, "iter_delete: a visited entry stays visited (no double visit after backward shift / wrap)");
+        CHECK(c0 != IT_PENDING || c1 == IT_PENDING, "iter_delete: a pending entry stays pending (no skipped entry after backward shift)");
+    }
+    if (destroy) {
+        bool dk = snap.hdr.destroy_key_fn != NULL, dv = snap.hdr.destroy_value_fn != NULL;
+        CHECK(g_dk_calls == (dk ? 1 : 0) && (!dk || g_dk_last == cur.key), "iter_delete: key destroyed exactly once when requested");
+        CHECK(g_dv_calls == (dv ? 1 : 0) && (!dv || g_dv_last == cur.value), "iter_delete: value destroyed exactly once when requested");
+        CANARY("iter_delete: with destruction");
+    } else {
+        NO_DESTRUCTOR_CALLS();
+    }
+    if (it.limit < limit0) {
+        if (limit0 < HT_NS) CANARY("iter_delete: limit shrunk again");
+        else CANARY("iter_delete: limit shrunk (visited entry shifted across the wrap-around)");
+    } else CANARY("iter_delete: limit kept");
+    if (slot0 == 0) CANARY("iter_delete: slot 0 deleted (slot underflows)");
+    if (c0 == IT_PENDING && p1 != HT_NONE && p1 != p) CANARY("iter_delete: pending entry shifted back");
+    if (c0 == IT_VISITED && p1 != HT_NONE && p1 != p) CANARY("iter_delete: visited entry shifted back");
 }
